@@ -103,7 +103,8 @@ def ensure_facts(fresh=False, repo=None):
     """Return (path to facts json, hash, info dict). Extracts if the tree changed."""
     repo = repo or repo_dir()
     t0 = time.time()
-    if not os.path.exists(DRIVER_BIN):
+    srcs = [os.path.join(DRIVER_DIR, 'src', f) for f in os.listdir(os.path.join(DRIVER_DIR, 'src'))] + [os.path.join(DRIVER_DIR, 'Cargo.toml')]
+    if not os.path.exists(DRIVER_BIN) or any(os.path.getmtime(s) > os.path.getmtime(DRIVER_BIN) for s in srcs):
         build_driver()
     h = tree_hash(repo)
     facts_dir = os.path.join(CACHE, 'facts')
